@@ -1,5 +1,5 @@
 (* C10 — an offset changes how an instant is read, never which instant it is. *)
-From Astro Require Import Base CalSpec DateModel TimeModel ApiModel InstantSpec DateProofs TimeProofs ClockProofs OffsetProofs.
+From Astro Require Import Base CalSpec DateModel TimeModel ApiModel InstantSpec DateProofs TimeProofs ClockProofs OffsetProofs OffsetOrder.
 
 (* set_offset: succeeds exactly when the local reading is representable, keeps days/nanoseconds (hence the
    instant, timestamp, ordering and differences) and records the offset *)
@@ -9,6 +9,12 @@ Theorem C10_set_offset : forall v o, Inv_dt v -> off_ok o ->
 Proof. exact c10_set_offset. Qed.
 Theorem C10_set_offset_keeps : forall v o v', dt_set_offset v o = Ok v' -> instant v' = instant v /\ dt_off v' = o.
 Proof. exact c10_set_offset_keeps. Qed.
+(* ... and therefore ordering, equality, timestamp and differences: the result compares Equal and == to the original, and
+   compares with any third value exactly as the original does *)
+Theorem C10_set_offset_order : forall v o v', dt_set_offset v o = Ok v' ->
+  dt_cmp v' v = Eq /\ dt_eqb v' v = true /\ dt_timestamp v' = dt_timestamp v /\ dt_nanos_since v' v = 0 /\
+  (forall w, dt_cmp v' w = dt_cmp v w /\ dt_cmp w v' = dt_cmp w v).
+Proof. exact c10_set_offset_order. Qed.
 (* every getter reads the fields of the instant shifted by the offset: all of them go through dt_local *)
 Theorem C10_local : forall v, inst_in_range (local_instant v) ->
   dt_local v = Ok (local_instant v / D, local_instant v mod D).
@@ -39,6 +45,7 @@ Proof. exact c10_offset_from_hms. Qed.
 
 Print Assumptions C10_set_offset.
 Print Assumptions C10_set_offset_keeps.
+Print Assumptions C10_set_offset_order.
 Print Assumptions C10_local.
 Print Assumptions C10_as_offset.
 Print Assumptions C10_time_as_offset.
